@@ -2,7 +2,7 @@
    floating-point hypotheses, the defects of the pinned tree as theorems, and
    the index safety of the repaired population::load. *)
 From Coq Require Import ZArith List Bool Lia ZifyBool.
-From VV Require Import Serial.SerialDefs Serial.CodecProofs Serial.SerialProofs Serial.SerialFailProofs.
+From VV Require Import Serial.SerialDefs Serial.CodecProofs Serial.SerialProofs Serial.SerialFailProofs Serial.LoopProofs.
 Import ListNotations.
 Local Open Scope Z_scope.
 
@@ -225,3 +225,57 @@ Proof.
   - intros. apply team_save_len.
   - exact Hp.
 Qed.
+
+(* ---- distribution::save accepts what the round-trip theorem covers ---- *)
+Lemma dist_save_ok_wf : forall d, wf_dist d -> dist_save_ok d = true.
+Proof.
+  intros d (_ & Hm & Hmn & Hmx & Hm2 & _ & Hkv & _). unfold dist_save_ok.
+  rewrite Hm, Hmn, Hmx, Hm2. cbn [andb].
+  apply forallb_forall. intros kv Hin. rewrite Forall_forall in Hkv. now destruct (Hkv kv Hin).
+Qed.
+
+(* ---- progress of every element parser used by a loop ---- *)
+Lemma element_parsers_prog : forall read_f ss,
+  prog read_i32 /\ prog (rdf read_f) /\ prog (gene_parse read_f ss) /\ prog (kv_parse read_f) /\
+  prog (ind_parse mep (mep_load read_f ss) mep_default) /\
+  prog (ind_parse vec_ind ga_load vec_default) /\ prog (ind_parse vec_ind (de_load read_f) vec_default) /\
+  (forall (I : Type) iload (idflt : I), lprog iload ->
+     prog (ind_parse I iload idflt) /\ lprog (team_load I iload idflt) /\ prog (layer_parse I iload idflt)).
+Proof.
+  intros read_f ss.
+  split; [apply read_int_prog|]. split; [apply rdf_prog|]. split; [apply gene_parse_prog|].
+  split; [apply kv_parse_prog|].
+  split; [apply ind_parse_prog, mep_load_lprog|].
+  split; [apply ind_parse_prog, ga_load_lprog|].
+  split; [apply ind_parse_prog, de_load_lprog|].
+  intros I iload idflt Hi.
+  split; [now apply ind_parse_prog|]. split; [now apply team_load_lprog|now apply layer_parse_prog].
+Qed.
+
+(* ---- summary<T>::load of the pinned tree reads the elapsed time into an int:
+   a summary saved after 2^31 ms (24.8 days) cannot be loaded ---- *)
+Lemma summary_elapsed_int_witness :
+  let x := {| su_sol := vec_default; su_fit := []; su_acc := minus_one; su_elapsed := 2147483648;
+              su_mutations := 0; su_crossovers := 0; su_gen := 0; su_last_imp := 0 |} in
+  ret (summary_load read_u64 vec_ind ga_load vec_default read_i32
+         (summary_save show_u vec_ind ga_save vec_empty x) x) = false /\
+  summary_load read_u64 vec_ind ga_load vec_default read_i64
+         (summary_save show_u vec_ind ga_save vec_empty x) x = (true, x, [10]).
+Proof. vm_compute. split; reflexivity. Qed.
+
+Lemma loops_fuel_free : forall A (p : parser A), prog p ->
+  forall n s fuel, (length s <= fuel)%nat ->
+  Reps p n s (rep p fuel n s) /\ rep p fuel n s = rep p (length s) n s.
+Proof.
+  intros A p Hp n s fuel Hf. split; [now apply rep_computes|].
+  apply rep_fuel_indep; [assumption|assumption|apply Nat.le_refl].
+Qed.
+Lemma loop_det : forall A (p : parser A) n s r1 r2, Reps p n s r1 -> Reps p n s r2 -> r1 = r2.
+Proof. intros. eapply Reps_det; eassumption. Qed.
+Lemma args_loop_fuel_free : forall (p : parser Z) arity s,
+  Reps p (Z.of_nat arity) s (rep p arity (Z.of_nat arity) s).
+Proof. intros. apply rep_computes_count. apply Z.le_refl. Qed.
+Lemma elapsed_readers : forall n pre r, all_ws pre -> nds r ->
+  (is_i32 n -> read_i32 (pre ++ show_i n ++ r) = Some (n, r)) /\
+  (i64_min <= n <= i64_max -> read_i64 (pre ++ show_i n ++ r) = Some (n, r)).
+Proof. intros n pre r Hp Hr. split; intro Hn; [now apply read_i32_show|now apply read_int_show_i]. Qed.
